@@ -10,9 +10,11 @@
 package main
 
 import (
+	"encoding/hex"
 	"fmt"
 	"math"
 	"os"
+	"runtime/debug"
 	"strconv"
 	"strings"
 	"znverif/hlib"
@@ -229,6 +231,9 @@ func outcome(elem r.Element, err error, display bool) M {
 		return M{"kind": "nilinside"}
 	}
 	out := M{"kind": "value", "value": hlib.DumpValue(elem, 0)}
+	if sv, ok := elem.(*value.String); ok {
+		out["bytes"] = hex.EncodeToString([]byte(sv.GetValue()))
+	}
 	if display {
 		// what 显示 / 输出 / 令 / 为 do with a result: String(), DuplicateValue, CompareValues
 		out["strlen"] = len(elem.String())
@@ -246,6 +251,8 @@ func safeName(s string) bool {
 
 // {"op":"get|set|method|construct|call|index_get|index_set|validate|display|json", "recv":spec, "name":..., "args":[spec], "cwd":dir}
 func cmdAPI(in M) M {
+	// a cyclic value overflows the goroutine stack: let that happen quickly (hlib sets 256 MB)
+	debug.SetMaxStack(64 << 20)
 	if cwd, ok := in["cwd"].(string); ok && cwd != "" {
 		if err := os.Chdir(cwd); err != nil {
 			return M{"skipped": "chdir"}
@@ -281,7 +288,8 @@ func cmdAPI(in M) M {
 		if len(args) != 1 {
 			return M{"bad": "set needs one arg"}
 		}
-		err := recv.SetProperty(name, args[0])
+		// `A之名 = V` copies V first (evalVarAssignExpr)
+		err := recv.SetProperty(name, value.DuplicateValue(args[0]))
 		if err != nil {
 			out = M{"kind": "error", "err": errInfo(err)}
 		} else {
@@ -404,6 +412,7 @@ func newInterp() *exec.Interpreter {
 
 // {"src": text, "cwd": dir}
 func cmdProg(in M) M {
+	debug.SetMaxStack(64 << 20)
 	if cwd, ok := in["cwd"].(string); ok && cwd != "" {
 		if err := os.Chdir(cwd); err != nil {
 			return M{"skipped": "chdir"}
@@ -552,6 +561,7 @@ func code3(e r.Element, err error) int {
 // Every op is applied through the public ExecMethod of the receiver. Output: the tree of every cell afterwards
 // (depth-limited: "deep" marks a cyclic / too deep value) and whether every op returned a non-nil value.
 func cmdHeapOps(in M) M {
+	debug.SetMaxStack(64 << 20)
 	cells := []r.Element{}
 	for _, k := range in["cells"].([]interface{}) {
 		if k.(string) == "list" {
